@@ -69,6 +69,11 @@ def new_interp(repo: Repo):
             return True
         raise Unsupported("numpy.any of a non-field value")
     ip.ext_overrides["numpy.any"] = generic_any
+    # two symbolic arrays are equal (and close) exactly when they are the same symbol: generic potentials differ by more than
+    # any tolerance; the within-tolerance case is explored by C10
+    same = lambda ip_, a, k: repr(a[0]) == repr(a[1])
+    for nm in ("array_equal", "array_equiv", "allclose"):
+        ip.ext_overrides[f"numpy.{nm}"] = same
     return T, ip
 
 
